@@ -5,6 +5,26 @@ def indent(level):
     return '  ' * level
 
 
+def unescape_string(text, quote):
+    """Value of a string literal given the text between its delimiters, in one left-to-right scan:
+    backslash + (backslash | ' | ") -> that character, a doubled single quote -> ' (single-quoted literals only);
+    every other character, and a backslash before any other character, is kept."""
+    out = []
+    i, n = 0, len(text)
+    while i < n:
+        c = text[i]
+        if c == '\\' and i + 1 < n and text[i + 1] in ('\\', "'", '"'):
+            out.append(text[i + 1])
+            i += 2
+        elif c == "'" and quote == "'" and i + 1 < n and text[i + 1] == "'":
+            out.append("'")
+            i += 2
+        else:
+            out.append(c)
+            i += 1
+    return ''.join(out)
+
+
 def ensure_select_keyword_order(select, operation):
     from mindsdb_sql.parser.ast.select.union import CombiningQuery
     if isinstance(select, CombiningQuery):
